@@ -138,6 +138,54 @@ fn deep_positions(bits: u32) -> Vec<u64> {
     v
 }
 
+/// one bit pattern (a single-bit neighbour of the valid id `near`): what the API returns for it must be
+/// canonical, and if it decodes, re-encoding must give the same bits
+pub fn check_bits(x: u64, near: u64) -> Vec<Viol> {
+    let id = near;
+    let mut out = Vec::new();
+    if !rc::is_canonical(x) {
+        // "every ID returned by any API call is in this canonical form": hierarchy calls on a
+        // bit pattern that is not a cell, with every natural target (the resolution the
+        // library itself reads from the bits, one coarser, one finer, none)
+        let g = subj::resolution(x).unwrap_or(0);
+        let mut returned: Vec<(String, u64)> = Vec::new();
+        for t in [None, Some(g), Some(g - 1), Some(g + 1)] {
+            if let Ok(p) = subj::parent(x, t) {
+                returned.push((format!("cell_to_parent(.., {:?})", t), p));
+            }
+            if t.map(|t| t <= g + 1).unwrap_or(true) {
+                if let Ok(ch) = subj::children(x, t) {
+                    returned.extend(ch.into_iter().map(|c| (format!("cell_to_children(.., {:?})", t), c)));
+                }
+            }
+        }
+        if let Ok(v) = subj::compact(&[x]) {
+            returned.extend(v.into_iter().map(|c| ("compact".to_string(), c)));
+        }
+        if let Ok(v) = subj::uncompact(&[x], g.clamp(-1, 29)) {
+            returned.extend(v.into_iter().map(|c| ("uncompact(.., its own resolution)".to_string(), c)));
+        }
+        if let Some((f, bad)) = returned.iter().find(|(_, c)| !rc::is_canonical(*c)) {
+            out.push(viol(
+                "C05/api-noncanonical",
+                format!("{} on the bit pattern {:#018x} (not a cell; reads as resolution {}) returned {:#018x}, which is not a canonical id", f, x, g, bad),
+                json!({"kind": "bits", "id": subj::hex(x)}),
+            ));
+        }
+    }
+    if let Ok(cell) = subj::deserialize(x) {
+        match subj::serialize(&cell) {
+            Ok(y) if y == x => {}
+            other => out.push(viol(
+                "C05/decode-not-injective",
+                format!("deserialize accepts {:#018x} (one bit away from the valid id {:#018x}) as {:?}, which encodes to {:?}: two ids denote one cell", x, id, cell, other.map(|y| format!("{:#018x}", y))),
+                json!({"kind": "bits", "id": subj::hex(x)}),
+            )),
+        }
+    }
+    out
+}
+
 pub fn run(tier: &str) -> Report {
     let mut rep = Report::new("model_checking");
     let rmax = if tier == "quick" { 8 } else { 10 };
@@ -244,17 +292,7 @@ pub fn run(tier: &str) -> Report {
             .flat_map(|&id| {
                 let mut out = Vec::new();
                 for k in 0..64 {
-                    let x = id ^ (1u64 << k);
-                    if let Ok(cell) = subj::deserialize(x) {
-                        match subj::serialize(&cell) {
-                            Ok(y) if y == x => {}
-                            other => out.push(viol(
-                                "C05/decode-not-injective",
-                                format!("deserialize accepts {:#018x} (one bit away from the valid id {:#018x}) as {:?}, which encodes to {:?}: two ids denote one cell", x, id, cell, other.map(|y| format!("{:#018x}", y))),
-                                json!({"kind": "bits", "id": subj::hex(x)}),
-                            )),
-                        }
-                    }
+                    out.extend(check_bits(id ^ (1u64 << k), id));
                 }
                 out
             })
@@ -352,6 +390,21 @@ pub fn run(tier: &str) -> Report {
             }
         }
     }
+    // very long digit strings with long zero windows (an accumulator wider than 64 bits that wraps,
+    // a value behind a zero-padded field)
+    for len in 17usize..=80 {
+        strings.push(format!("1{}", "0".repeat(len - 1)));
+        strings.push(format!("1{}1", "0".repeat(len - 2)));
+        strings.push(format!("f{}b400000002800000", "0".repeat(len - 1)));
+        strings.push(format!("deadbeef{}", "0".repeat(len)));
+        strings.push("0".repeat(len));
+        strings.push(format!("{}7", "0".repeat(len)));
+    }
+    for len in [96usize, 128, 129, 160, 256, 257, 1024] {
+        strings.push(format!("1{}", "0".repeat(len - 1)));
+        strings.push(format!("8{}3", "0".repeat(len - 2)));
+        strings.push("f".repeat(len));
+    }
     strings.push("ffffffffffffffff".into());
     strings.push("10000000000000000".into());
     strings.push("0x10".into());
@@ -400,13 +453,7 @@ pub fn replay(case: &Value) -> Vec<Viol> {
         }
         "bits" => {
             let x = u64::from_str_radix(case["id"].as_str().unwrap(), 16).unwrap();
-            match subj::deserialize(x) {
-                Ok(cell) => match subj::serialize(&cell) {
-                    Ok(y) if y == x => vec![],
-                    other => vec![viol("C05/decode-not-injective", format!("{:#018x} decodes to {:?} which encodes to {:?}", x, cell, other), case.clone())],
-                },
-                Err(_) => vec![],
-            }
+            check_bits(x, x)
         }
         "hex_u64" => {
             let s = case["value"].as_str().unwrap().trim_start_matches("0x");
